@@ -450,7 +450,7 @@ def check_c06(rec):
         snap, pre, loss = st.get("post"), st.get("pre"), st.get("loss")
         if snap is None or pre is None or st["pre_error"] or i in rec["strat_errors"]:
             continue
-        if i >= rec["step_i"]:
+        if i >= rec["step_i"] or any(i >= len(rec["totalLoad"][g]) for g in rec["gc_ids"]):
             continue
         for g in rec["gc_ids"]:
             # reported connector power = sum of reported component powers (curtailed at the rating)
